@@ -1,5 +1,5 @@
 /-
-Basic lemmas over M-PICO: association lists, strict vs. plain from-scratch evaluation.
+Basic lemmas over M-PICO: association lists.
 -/
 import IsoVerif.Model.Pico
 import IsoVerif.Model.PicoSpec
@@ -99,107 +99,5 @@ theorem alookup_filterKey_some (l : List (α × β)) (p : α → Bool) (a : α) 
       · simp [alookup, hk]; exact ih h'
 
 end alist
-
-/-! ## strict success implies the same plain result -/
-
-theorem evalPS_ok_evalP (call call' : NodeId → Res Nat) (P : Prog) (srcs : List (Key × SrcNode)) (maps : List (List Nat))
-    (hc : ∀ id v, call id = .ok v → call' id = .ok v) :
-    ∀ (e : Expr) (a v : Nat), evalPS call P srcs maps e a = .ok v → evalP call' P srcs maps e a = .ok v := by
-  intro e
-  induction e with
-  | lit n => intro a v h; simpa [evalPS, evalP] using h
-  | param => intro a v h; simpa [evalPS, evalP] using h
-  | src k ih =>
-    intro a v h
-    simp only [evalPS] at h
-    cases hk : evalPS call P srcs maps k a with
-    | panic p => simp [hk] at h
-    | ok kv =>
-      simp only [hk] at h
-      simp only [evalP, ih a kv hk]
-      cases hl : alookup srcs (.src kv) with
-      | none => simp [hl] at h
-      | some nd => simpa [hl] using h
-  | sing i =>
-    intro a v h
-    simp only [evalPS] at h
-    simp only [evalP]
-    cases hl : alookup srcs (.sing i) with
-    | none => simp [hl] at h
-    | some nd => simpa [hl] using h
-  | trk m =>
-    intro a v h
-    simp only [evalPS] at h
-    simp only [evalP]
-    cases hl : alookup srcs (.ctr m) with
-    | none => simp [hl] at h
-    | some nd => simpa [hl] using h
-  | call f e ih =>
-    intro a v h
-    simp only [evalPS] at h
-    cases he : evalPS call P srcs maps e a with
-    | panic p => simp [he] at h
-    | ok av =>
-      simp only [he] at h
-      simp only [evalP, ih a av he]
-      exact hc _ _ h
-  | add x y ihx ihy =>
-    intro a v h
-    simp only [evalPS] at h
-    cases hx : evalPS call P srcs maps x a with
-    | panic p => simp [hx] at h
-    | ok xv =>
-      simp only [hx] at h
-      cases hy : evalPS call P srcs maps y a with
-      | panic p => simp [hy] at h
-      | ok yv =>
-        simp only [hy] at h
-        simp only [evalP, ihx a xv hx, ihy a yv hy]; exact h
-  | eq x y ihx ihy =>
-    intro a v h
-    simp only [evalPS] at h
-    cases hx : evalPS call P srcs maps x a with
-    | panic p => simp [hx] at h
-    | ok xv =>
-      simp only [hx] at h
-      cases hy : evalPS call P srcs maps y a with
-      | panic p => simp [hy] at h
-      | ok yv =>
-        simp only [hy] at h
-        simp only [evalP, ihx a xv hx, ihy a yv hy]; exact h
-  | ite c t e ihc iht ihe =>
-    intro a v h
-    simp only [evalPS] at h
-    cases hcv : evalPS call P srcs maps c a with
-    | panic p => simp [hcv] at h
-    | ok cv =>
-      simp only [hcv] at h
-      simp only [evalP, ihc a cv hcv]
-      by_cases hz : cv ≠ 0
-      · rw [if_pos hz] at h ⊢; exact iht a v h
-      · rw [if_neg hz] at h ⊢; exact ihe a v h
-  | half x ih =>
-    intro a v h
-    simp only [evalPS] at h
-    cases hx : evalPS call P srcs maps x a with
-    | panic p => simp [hx] at h
-    | ok xv =>
-      simp only [hx] at h
-      simp only [evalP, ih a xv hx]; exact h
-
-theorem evalSS_ok_evalS (P : Prog) (srcs : List (Key × SrcNode)) (maps : List (List Nat)) :
-    ∀ (fuel : Nat) (path : List NodeId) (id : NodeId) (v : Nat),
-      evalSS fuel P srcs maps path id = .ok v → evalS fuel P srcs maps path id = .ok v := by
-  intro fuel
-  induction fuel with
-  | zero => intro path id v h; simp [evalSS] at h
-  | succ n ih =>
-    intro path id v h
-    simp only [evalSS] at h
-    simp only [evalS]
-    by_cases hp : path.contains id = true
-    · rw [if_pos hp] at h; cases h
-    · rw [if_neg hp] at h ⊢
-      exact evalPS_ok_evalP _ _ P srcs maps (fun id' v' h' => ih _ _ _ h') _ _ _ h
 
 end IsoVerif.Pico
